@@ -156,7 +156,7 @@ def daemon_common(pid, tier, seed, props, level="model_checking", extra=None):
 # ------------------------------------------------------------------------------------------ C08 / C09
 @register("C08")
 def c08(tier, seed):
-    return daemon_common("C08", tier, seed, {"C08"})
+    return daemon_common("C08", tier, seed, {"C08"}, extra=lambda rep: whole_runs(rep, tier, WHOLE_PROPS["C08"]))
 
 
 @register("C09")
@@ -176,6 +176,7 @@ def c09(tier, seed):
         # the pinned behaviour, in the model: with the FSM status published as is, TLC finds the counterexample
         r = daemon_mc(rep, "presync_fsm", dict(MCQ, policy="fsm", polls=2, ticks=1, starts=1), invariants=["NoTrustBeforeMeasure"], properties=())
         rep.notes.append(f"model with PreSyncPolicy = fsm (publish whatever the FSM holds): NoTrustBeforeMeasure {'violated as expected' if r.violated else 'NOT violated (unexpected)'}")
+        whole_runs(rep, tier, WHOLE_PROPS["C09"])
     return daemon_common("C09", tier, seed, {"C09"}, extra=extra)
 
 
@@ -203,6 +204,7 @@ def c13(tier, seed):
     def extra2(rep):
         extra(rep)
         timelines(rep, tier)
+        whole_runs(rep, tier, WHOLE_PROPS["C13"])
     return daemon_common("C13", tier, seed, {"C13"}, extra=extra2)
 
 
@@ -254,11 +256,141 @@ def timelines(rep, tier):
     os.remove(tml)
 
 
+# ------------------------------------------------------------------------------------------ whole process, values
+PHC0 = (80 << 24) | (72 << 16) | (67 << 8) | 48
+
+WHOLE = [
+    # name, chrony script, seconds, phc schedule, fake args, daemon args, drift ppb, phc configured, refmatch
+    ("plain-outage", "answer:6,gone:7,answer:4", 18, "none", "--vary --delay-ms 40", ["--max-drift-rate", "7"], 7000, False, False),
+    ("phc-reference", "answer:4,silent:2,answer:4,silent:2,answer:4,silent:2,answer:3", 22, "0=4321;5=1234567890;11=rm;17=555",
+     f"--vary --delay-ms 25 --refid {PHC0}", ["-r", "PHC0", "-i", "eth9", "-m", "50"], 50000, True, True),
+    ("phc-not-reference", "answer:4,silent:2,answer:4", 11, "0=4321;5=rm", "--vary", ["-r", "PHC0", "-i", "eth9"], 1000, True, False),
+]
+WHOLE_T = [
+    ("unsync-then-sync", "leap3:4,answer:4,leap3:3,gone:7", 19, "none", "--vary --delay-ms 10", ["--max-drift-rate", "4294967"], 4294967000, False, False),
+    ("phc-broken-from-start", "answer:5,silent:2,answer:4", 12, "0=rm;6=777", f"--vary --refid {PHC0}", ["-r", "PHC0", "-i", "eth9", "-m", "1"], 1000, True, True),
+]
+
+
+WHOLE_TAGS = {"drift": "Tracks: the drift is the configured one", "void": "Tracks: void-after = as-of + 1000 s, whole second",
+              "trust": "NoTrustBeforeMeasure: place-holders with a status other than Unknown",
+              "asof-late": "AsOfBeforeReply: as-of read after the request reached chronyd", "asof-early": "Tracks: as-of is not that report's reading",
+              "tracking": "Tracks: not the latest usable report", "phc": "PhcRule: PHC error bound added / report used although it must not be",
+              "formula": "BoundOps: not the bound of any report"}
+# which tags are which property's business
+WHOLE_PROPS = {"C07": {"formula", "phc"}, "C08": set(WHOLE_TAGS) | {"unexercised", "daemon-died"}, "C09": {"trust"}, "C12": {"asof-late"},
+               "C13": {"phc", "daemon-died"}, "C19": {"drift"}}
+
+
+def limbs(x):
+    v = []
+    x = abs(x)
+    while x > 0:
+        v.append(x % 1000)
+        x //= 1000
+    return v
+
+
+def whole_runs(rep, tier, props):
+    """The real release binary, started with real command-line arguments, against the scripted fake chronyd and a fake
+    sysfs PHC device in a private mount namespace; every published record judged by Whole.tla (TLC)."""
+    binary = build_release_daemon()
+    fake = os.path.join(cb.build_harness(), "fakechrony")
+    cases = WHOLE + (WHOLE_T if tier == "thorough" else [])
+
+    def one(x):
+        name, script, secs, phc, fakeargs, dargs = x[:6]
+        out = os.path.join(cb.WORK, f"wh_{rep.pid}_{name}.json")
+        if os.path.exists(out):
+            os.remove(out)
+        p = cb.run(["unshare", "-m", os.path.join(cb.ROOT, "bin", "ns_whole.sh"), binary, fake, script, str(secs), out, phc, fakeargs, "--"] + dargs, timeout=secs + 90)
+        if not os.path.exists(out):
+            raise ToolError(f"whole-process run '{name}' failed (needs root + unshare -m): {p.stderr[-500:]}")
+        d = json.load(open(out))
+        os.remove(out)
+        if "error" in d:
+            raise ToolError(f"whole-process run '{name}': {d}")
+        return d
+    with ThreadPoolExecutor(max_workers=6) as ex:
+        runs = list(ex.map(one, cases))
+    whl = os.path.join(cb.WORK, f"whl_{rep.pid}.ndjson")
+    recs = []
+    for i, (c, d) in enumerate(zip(cases, runs)):
+        name, script, secs, phc, fakeargs, dargs, drift, phc_conf, refmatch = c
+        base = d["start_ns"]
+        us_dn = lambda ns: (ns - base) // 1000
+        us_up = lambda ns: -((base - ns) // 1000)
+        answers = []
+        ambiguous = False
+        for a in d["fake"]:
+            if a["ev"] != "answered":
+                continue
+            # content of the PHC file while this answer was processed: the last change before the request; a change
+            # within 0.6 s after the answer makes the observation ambiguous (the schedules avoid it)
+            phcv = -1
+            for ch in d["phc"]:
+                if ch["mono_ns"] <= a["req_ns"]:
+                    phcv = -1 if ch["value"] == "rm" else int(ch["value"])
+                elif ch["mono_ns"] <= a["ans_ns"] + 600_000_000:
+                    ambiguous = True
+            answers.append({"req_us": us_dn(a["req_ns"]), "ans_us": us_up(a["ans_ns"]), "sync": a["mode"] == "answer", "refmatch": refmatch,
+                            "phcv": phcv, "corr": a["corr"], "delay": a["delay"], "disp": a["disp"]})
+        if ambiguous and phc_conf and refmatch:
+            raise ToolError(f"whole-process run '{name}': a PHC file change fell next to an answer; the observation is ambiguous (loaded machine?)")
+        samples = []
+        for s_ in d["samples"]:
+            as_ns = s_["as_of"][0] * 10**9 + s_["as_of"][1]
+            samples.append({"t_us": us_up(s_["mono_ns"]), "status": s_["status"], "as_s": s_["as_of"][0], "as_n": s_["as_of"][1],
+                            "asof_us": us_dn(as_ns) if as_ns else 0, "va_s": s_["void_after"][0], "va_n": s_["void_after"][1],
+                            "drift": s_["drift"] if s_["drift"] < 2**31 else -1, "bound": {"n": s_["bound"] < 0, "m": limbs(s_["bound"])}})
+        recs.append({"id": i, "drift": drift if drift < 2**31 else -1, "phcConfigured": phc_conf, "end_us": int(secs * 1e6), "answers": answers, "samples": samples})
+    # drift values beyond TLC's 32-bit integers are compared here, literally, and passed to TLC as equal/unequal
+    for r_, (c, d) in zip(recs, zip(cases, runs)):
+        if c[6] >= 2**31:
+            for s_, raw in zip(r_["samples"], d["samples"]):
+                s_["drift"] = -1 if raw["drift"] == c[6] else -2
+    with open(whl, "w") as f:
+        for r_ in recs:
+            f.write(json.dumps(r_) + "\n")
+    r = cb.tlc("Whole", "Whole.cfg", f"whl_{rep.pid}", workers=1, timeout=600, env={"WHL": whl})
+    if checked(r.out) != len(recs):
+        raise ToolError(f"Whole oracle evaluated {checked(r.out)} of {len(recs)} runs: {r.out[-1200:]}")
+    bad = bad_ids(r.out, "BADRUN")
+    flat = r.out.replace("\n", " ")
+    tagmap = {}
+    for m in re.finditer(r'<<\s*"WHY",\s*(\d+),\s*\{(.*?)\},\s*(TRUE|FALSE)\s*>>', flat):
+        tags = [(int(a), b) for a, b in re.findall(r'<<\s*(\d+),\s*"([a-z-]+)"\s*>>', m.group(2))]
+        tagmap[int(m.group(1))] = (tags, m.group(3) == "TRUE")
+    nrec = sum(len(x["samples"]) for x in recs)
+    rep.evaluations += nrec
+    rep.notes.append(f"whole process, values: {len(recs)} runs of the real release binary (real CLI arguments, fake chronyd with varying reports, fake sysfs PHC device), {nrec} published records judged by Whole.tla ({r.wall:.1f}s)")
+    for i, (c, d) in enumerate(zip(cases, runs)):
+        if i == 0:
+            rep.sample({"whole_run": c[0], "script": c[1], "records": [(s_["t_ms"], s_["status"], s_["bound"], s_["drift"]) for s_ in d["samples"]][:12]})
+        if not d["daemon_alive"]:
+            if "daemon-died" in props:
+                rep.violation("whole-daemon-died", f"whole-process run '{c[0]}': the daemon exited: {d['daemon_log_tail'][-300:]}", {"kind": "whole", "case": c, "run": d})
+            continue
+        if i not in bad:
+            rep.traces += 1
+            continue
+        tags, exercised = tagmap.get(i, ([], True))
+        mine = [(k, t) for k, t in tags if t in props]
+        if not exercised and "unexercised" in props:
+            rep.violation("whole-nothing-published", f"whole-process run '{c[0]}' ({c[1]}; daemon args {c[5]}): no measurement was ever published although chronyd gave usable answers", {"kind": "whole", "case": c, "oracle_input": recs[i], "run": d})
+        if mine:
+            k, t = mine[0]
+            rep.violation("whole-record-" + t, f"whole-process run '{c[0]}' ({c[1]}; daemon args {c[5]}): published record {d['samples'][k - 1]} contradicts the specification ({WHOLE_TAGS[t]}); {len(mine)} such records", {"kind": "whole", "case": c, "tags": tags, "oracle_input": recs[i], "run": d})
+        elif not (not exercised and "unexercised" in props):
+            rep.traces += 1      # wrong in a way that is another property's business
+    os.remove(whl)
+
+
 # ------------------------------------------------------------------------------------------ C10
 @register("C10")
 def c10(tier, seed):
     rep = Report("C10", tier, seed, "model_checking")
-    rep.assumptions = ["reference-time ages are placed >= 1 s away from the 8-interval threshold and from 'now' (ref_time.elapsed() reads the real system clock); the exact boundary (> vs >=) is not decided"]
+    rep.assumptions = ["reference-time ages are placed 200 ms (and 1-2 s) on either side of the 8-interval threshold (ref_time.elapsed() reads the real system clock; a row that took more than 150 ms of real time is redone); the exact boundary (> vs >=) is not decided"]
     rep.rule = "one row per (leap status, reference-time position, update interval); all 65536 leap values in thorough, 0..300 + powers of two +-1 + 65535 in quick; distinct by (leap, position, interval)"
     out = os.path.join(cb.WORK, "cls_C10.ndjson")
     res = djson(["class", "--out", out] + (["--all"] if tier == "thorough" else []), timeout=1800)
@@ -335,18 +467,11 @@ def c07(tier, seed):
     for m in re.findall(r'<<\s*"SAMPLE",\s*(\d+),\s*(<<.*?>>)\s*>>', r.out.replace("\n", " "))[:3]:
         rep.sample({"report": line_by_id(out, int(m[0])).get("human"), "spec_bound_limbs": m[1]})
     os.remove(out)
+    whole_runs(rep, tier, WHOLE_PROPS["C07"])
     return rep.finish()
 
 
 # ------------------------------------------------------------------------------------------ C19
-def limbs(x):
-    v = []
-    while x > 0:
-        v.append(x % 1000)
-        x //= 1000
-    return v
-
-
 def build_release_daemon():
     lk = cb.cargo_lock()
     try:
@@ -410,4 +535,5 @@ def c19(tier, seed):
         v, d = other[0]
         rep.violation("representable-rate-wrong", f"--max-drift-rate {v}: published {d.get('ppb') if d['published'] else 'nothing'} (exit {d['exit_code']})", {"kind": "drift", "cases": [{"ppm": a, "run": b} for a, b in other[:5]]})
     os.remove(out)
+    whole_runs(rep, tier, WHOLE_PROPS["C19"])
     return rep.finish()
